@@ -263,6 +263,10 @@ func VerifH04b() {
 func VerifH04t() {
 	where := vChoose(4) // 0 command loop, 1 password wait, 2 COPY text, 3 COPY binary
 	fault := vFaultKind()
+	// ... or the fault is on the way out: from some Write on, every Write fails
+	// with that error (a client that stopped reading until a write deadline
+	// expired): the reply that cannot be written ends the connection
+	writeFault := nondetBool()
 	copyReads := 0
 	var copyErr error
 	stmt := func(ctx context.Context, dw DataWriter, params []Parameter) error {
@@ -321,12 +325,22 @@ func VerifH04t() {
 	srv, err := NewServer(parse, opts...)
 	vAssert("newserver-ok", err == nil)
 	conn := vNewConn(input)
-	conn.in.endErr = fault
+	if writeFault {
+		conn.failWriteAt = vChoose(8)
+		conn.failWriteErr = fault
+		vReach("persistent-write-fault")
+	} else {
+		conn.in.endErr = fault
+	}
 	serr := srv.serve(context.Background(), conn)
+	if writeFault && !conn.writeFailed {
+		// (the session ended before the failing write was reached)
+		return
+	}
 	vAssert("serve-returns-with-an-error", serr != nil)
 	vAssert("connection-closed", conn.closed >= 1)
 	vAssert("wire-wellformed-prefix", vWireOK(conn.out))
-	if where >= 2 {
+	if where >= 2 && !writeFault {
 		vAssert("copy-read-loop-gets-an-error", copyErr != nil && copyErr != io.EOF)
 		vReach("fault-during-copy-in")
 	}
